@@ -36,7 +36,7 @@ pub fn run_prop(ctx: &Ctx, sink: &mut Sink) {
             }
             // starting points in every spelling (trailing slashes, leading ./, trailing /.), under every follow mode:
             // the path printed for the starting point itself must be the operand as given
-            let roots: Vec<(Vec<u8>, String)> = (0..rng.range(1, 2)).map(|_| sc.roots[rng.below(8)].clone()).collect();
+            let roots: Vec<(Vec<u8>, String)> = (0..rng.range(1, 2)).map(|_| sc.roots[rng.below(sc.roots.len())].clone()).collect();
             let flag = *rng.pick(&["P", "P", "L", "H"]);
             // the usual idioms in front of the action: `-name N -prune -o -print0` (the action in one alternative
             // of -o only: nothing else may be printed, by a default -print, say) and `-type f`
